@@ -46,27 +46,30 @@ CHECKS = {
               "loop + update_clocks) emits a permutation of all events (replay_perm), each stream in order "
               "(replay_stream_order), sclock = clock + host offset (replay_clock), non-decreasing for sorted streams and "
               "always when ovniemu does not reject (replay_sorted, replay_sorted_or_rejected), dclock = sclock - first sclock "
-              "(dclock_def); it never fails on sorted streams with non-negative first corrected clock passing the clock gate, "
+              "(dclock_def); it never fails on sorted streams passing the clock gate (any sign of the corrected clocks, after the repair of stream_step), "
               "never in ovnidump mode, and rejects only through its guards (replay_total, replay_total_unsorted, "
               "replay_rejects_only_by_guards); trace_load's sort makes the result independent of the enumeration order for "
               "every offset table (enumeration_independent, dump_/emu_enumeration_independent). Tie: the real heap.h in an "
               "ASan/UBSan harness vs the Lean heap (random + bounded-exhaustive scripts with many equal keys, every line "
               "diffed), ovnidump's exact line order and ovniemu's thread.prv (row,time) order vs the Lean player on generated "
               "multi-loom traces with offset tables, empty streams and shuffled directory creation, plus independent merge/"
-              "heap oracles. Known finding: a negative first corrected clock is refused."),
+              "heap oracles and an independent acceptance oracle (sorted input + usable table inside the gate must be replayed). Defect found and repaired: a negative first corrected clock was refused."),
         note=TB + "; heap pointers modelled as a value tree; streams as decoded event lists; int64 clocks as unbounded Int "
              "(no overflow); DL_SORT stable; ovniemu's order observed through the type-4 PRV records",
         technique="Lean 4 data-structure invariants + refinement of the player to an abstract merge + differential runs (C harness, ovnidump, ovniemu)",
         design="DESIGN.md §5 C03"),
     "C04": dict(
-        text=("Theorems (Props/C04.lean, 17) over the reference emulator (Emu/Core.lean: transcription of ovni/event.c pre_thread_*, "
+        text=("Theorems (Props/C04.lean, 27) over the reference emulator (Emu/Core.lean: transcription of ovni/event.c pre_thread_*, "
               "thread.c, cpu.c with the exact channel semantics) against a specification automaton written from the property "
               "text (Legal / specThread / SpecAccepts): the invariant WF of reachable states holds initially and is preserved "
               "by every accepted OH* event (wf_init, wf_step); in a WF state preThread succeeds IFF the transition is Legal "
               "and no physical CPU gets a second running thread (thread_accept_iff); a whole OH* history on any number of "
               "threads (never executing a dead thread) is accepted IFF every step is legal, no physical CPU is ever "
-              "oversubscribed and all threads end dead (history_accept_iff; stepEv_history_accept_partial relates it to the "
-              "full step including record emission - the converse needs records to be total, OPEN); after every accepted "
+              "oversubscribed and all threads end dead (history_accept_iff); the same equivalence holds for the FULL step "
+              "including record emission under NoZeroIds (non-zero TIDs/PIDs, no forbidden 0 on a model channel; true of every "
+              "initial state by noZeroIds_init): records is total there (records_total), the full step can only differ from "
+              "the emulator step by the forbidden-zero error (stepEv_rejects_only_zero), so stepEv_history_accept_iff; "
+              "tid_zero_records_fail (decide) shows the side condition is needed; after every accepted "
               "prefix the state channel holds the spec state and the TID channel the TID exactly while running, cooling or "
               "warming, and those are the Paraver records emitted (reaches_spec, state_view, state_records). Tie: random "
               "walks over an independent Python re-statement of the automaton with single illegal steps, a transition matrix, "
@@ -78,7 +81,7 @@ CHECKS = {
         technique="Lean 4 invariant + iff against an independent spec automaton by induction over histories + differential ovniemu runs",
         design="DESIGN.md §5 C04"),
     "C05": dict(
-        text=("Theorems (Props/C05.lean, 17) over the same model, for histories of OH* and OAs/OAr events in any interleaving: "
+        text=("Theorems (Props/C05.lean, 19) over the same model, for histories of OH* and OAs/OAr events in any interleaving: "
               "thread-in-CPU-list membership and index invariants (cpu_membership_inv, index_inv); in every reachable state "
               "every physical CPU has at most one running thread and a step that would create two is rejected "
               "(no_phys_oversub, thread_/execute_on_busy_/affinity_set_/affinity_remote_oversub_rejected) while the virtual "
@@ -86,7 +89,9 @@ CHECKS = {
               "(affinity_set_accept_iff, affinity_remote_accept_iff; the remote change to the thread's current CPU is "
               "rejected by the code and documented: remote_same_cpu_rejected); after every accepted step the nrun channel is "
               "the number of running threads bound to the CPU and tid/pid are those of the unique one, null otherwise, and "
-              "those are the cpu.prv records emitted (cpu_view, cpu_view_step, cpu_records). Tie: affinity-heavy histories "
+              "those are the cpu.prv records emitted (cpu_view, cpu_view_step, cpu_records); record emission is total for "
+              "OH*/OAs/OAr steps and the fold of the full step reaches exactly the states of the emulator fold "
+              "(records_total_affinity, stepRun_iff_emuRun). Tie: affinity-heavy histories "
               "over several threads, CPUs and looms, witnesses and bounded-exhaustive words: real ovniemu -l vs the Lean "
               "reference emulator and vs an independent oracle recomputing cpu.prv types 1,2,3 from thread.prv types 4,6."),
         note=TB + "; findRemote / loomGetCpu are static lookups proved invariant under steps",
@@ -210,31 +215,35 @@ CHECKS = {
         technique="Lean 4 unwinding/non-interference proofs over a generated-footprint interleaving model + multi-threaded differential runs + TSan",
         design="DESIGN.md §5 C11"),
     "C12": dict(
-        text=("Theorems (Props/C12.lean, 18) over a byte-level model of check_stream_header / load_obs / stream_step with the exact C "
+        text=("Theorems (Props/C12.lean, 19) over a byte-level model of check_stream_header / load_obs / stream_step with the exact C "
               "integer casts and ARBITRARY memory beyond the file: valid streams are accepted (non-vacuity); any single header "
               "byte replaced by any other value, and files shorter than 8 bytes, are refused (bad_header_rejected, "
               "short_header_rejected); a cut strictly inside the last event is refused (Fixed.truncation_rejected, full strength "
               "for the code after the repair db50cd1; truncation_not_rejected keeps the decide witness for the code before it); "
               "two adjacent events with different clocks exchanged anywhere are refused (swap_rejected); the metadata gates as "
               "decision logic: checkStream accepts iff the spelled-out conjunction, each mandatory key missing or altered is "
-              "refused (thread_stream_spec, mandatory_key_rejected, trace_key_rejected); events of a model that is not required "
+              "refused (thread_stream_spec, mandatory_key_rejected, trace_key_rejected); an unparsable or incompatible model version "
+              "required by ANY thread aborts the probe (mismatched_require_rejected, composing the version model of C14); events of a model that is not required "
               "and wrong payload sizes of size-checked events are refused (unrequired_model_rejected, "
               "wrong_payload_size_rejected); the sticky is_jumbo of the old emu_ev is kept as a witness. Tie: the real stream.c "
               "in an ASan harness vs the Lean cursor (every offset, accept/error, over-read), and `ovniemu -l` on every single "
               "corruption of generated valid traces (thorough: all 255 wrong values of each header byte, every cut, every "
-              "adjacent swap, every mandatory key): exit != 0 and no 'emulation finished ok'."),
+              "adjacent swap, every mandatory key, the version each stream requires of each model): exit != 0 and no 'emulation finished ok'."),
         note=TB + "; int = 32-bit wrap, int64 offsets unbounded; metadata is logic over what the parson getters return (parson "
              "assumed); unknown MCV inside an enabled model and handler size guards are carried by the e2e correspondence",
         technique="Lean 4 theorems over a byte-level cursor with adversarial out-of-file memory + single-corruption differential runs",
         design="DESIGN.md §5 C12"),
     "C13": dict(
-        text=("Theorems (Props/C13.lean, 16) over the Paraver writer model (prv_advance guard, lines written at the current "
+        text=("Theorems (Props/C13.lean, 25) over the Paraver writer model (prv_advance guard, lines written at the current "
               "time, header rewritten at close) and the record generation of the reference emulator: for every accepted "
               "sequence of steps the lines are in non-decreasing time order, none is later than the header duration, which is "
               "the clock of the last step (prv_times_monotone), a backwards step is refused; every record belongs to the row "
               "gindex+1 of an existing thread/CPU and its type is one of the types declared in the matching .pcf "
               "(records_rows_types, with specs_consistent by decide over regenerated specs); table/initial/default values are "
-              "labelled (init_values_labelled + C08 tables_labelled); the .row file has one name per row. Tie: on every "
+              "labelled (init_values_labelled + C08 tables_labelled); for accepted OH*/OA* steps a thread-state record carries one "
+              "of the six labelled state codes of its row's thread and a CPU record 0 or gindex+1 of an existing CPU the "
+              "thread is bound to (records_values_labelled_ovni), and record emission fails only on a forbidden zero "
+              "(records_error_only_zero); the .row file has one name per row. Tie: on every "
               "accepted generated trace independent Python parsers check thread/cpu .prv/.pcf/.row (time order, row range, "
               "duration = last event time, types declared, state values labelled, row names in documented order) and the "
               "timelines equal the Lean reference emulator's. Found and repaired: cpu.pcf did not declare CPU types 1,2,3."),
@@ -291,7 +300,7 @@ CHECKS = {
         technique="Lean 4 refinement of the window sort to a stable sort + byte-exact differential runs of ovnisort",
         design="DESIGN.md §5 C16"),
     "C17": dict(
-        text=("Theorems (Props/C17.lean, 17): the runtime refuses ovni_mark_type / ovni_mark_label exactly for a type outside "
+        text=("Theorems (Props/C17.lean, 37): the runtime refuses ovni_mark_type / ovni_mark_label exactly for a type outside "
               "[0,100), empty title/label, redefinition, value <= 0, undefined type or relabelled value "
               "(markType_refused_iff, markLabel_refused_iff), push/pop/set refuse value 0; the emulator's merge refuses a "
               "definition whose title or channel type disagrees with the table, a different label for a labelled value, and "
@@ -300,14 +309,18 @@ CHECKS = {
               "undefined type, zero value, push on single / set on stack, mismatched pop (mark_event_guards, "
               "wrong_op_refused, mismatched_pop_refused via C08); every mark type is a channel with Paraver type 100+type "
               "shown on the thread row while the thread is active and on the CPU row of the unique running thread "
-              "(mark_channel_spec, mark_thread_view, mark_cpu_view). Order independence of the merge is shown on concrete "
-              "instances only (examples), not as a general theorem. Tie: (A) real libovni (ASan/UBSan harness) vs the Lean "
+              "(mark_channel_spec, mark_thread_view, mark_cpu_view). The merge over any number of threads and definitions is "
+              "accepted iff every definition is well formed and every two agree (merge_ok_iff, merge_refused_iff), the table is "
+              "exactly the union with one label per value (merge_content), and verdict and table are invariant under any "
+              "permutation of threads or definitions, or moving definitions between threads (merge_perm_invariant, "
+              "mergeMarks_perm_threads/_perm_inside/_move_def); metadata reachable through the runtime API is always "
+              "accepted on its own and several threads iff they agree pairwise (runtime_meta_parses, "
+              "runtime_metas_merge_iff). Tie: (A) real libovni (ASan/UBSan harness) vs the Lean "
               "runtime model on random mark programs: abort/return and the ovni.mark metadata written; (B) independent "
               "Python-written traces with per-thread definitions and single conflicts, mark events interleaved with state "
               "changes: real ovniemu -l vs the Lean reference emulator (verdict, failing event, rows 100..199, PCF titles "
               "and labels) and vs an independent oracle. Known finding: label values beyond C int (see KNOWN_FINDINGS.txt)."),
-        note=TB + "; JSON decoding of the metadata (parson) is outside the model; the general permutation-invariance of the merge "
-             "is covered by the correspondence (threads defined in random orders), not by a theorem",
+        note=TB + "; JSON decoding of the metadata (parson) is outside the model",
         technique="Lean 4 guard/merge theorems over transcriptions of the mark API and mark.c + differential runs of libovni and ovniemu",
         design="DESIGN.md §5 C17"),
     "C18": dict(
